@@ -50,14 +50,16 @@ func verifC12(c *drv.Ctx) {
 		capTo   int
 		bound   int
 		slowOut time.Duration // standard output blocks that long per write: results back up in the queues
+		stuck   bool          // the request generator blocks in a read for an hour after its last request (see vStuckGenerator)
 	}
 	gscs := []gsc{
-		{"000000", 2, 0, false, 2, bound, 0},
-		{"053104", 2, 0, false, 2, bound, 0},
-		{"333300", 2, 0, true, 1, bound, 0},
-		{"005500", 3, 0, false, 1, 1, 0},
-		{"000000", 2, 1000, false, 2, 1, 0},
-		{"00000000", 4, 0, false, 1, 1, 5 * time.Millisecond},
+		{"000000", 2, 0, false, 2, bound, 0, false},
+		{"053104", 2, 0, false, 2, bound, 0, false},
+		{"333300", 2, 0, true, 1, bound, 0, false},
+		{"005500", 3, 0, false, 1, 1, 0, false},
+		{"000000", 2, 1000, false, 2, 1, 0, false},
+		{"00000000", 4, 0, false, 1, 1, 5 * time.Millisecond, false},
+		{"0040", 2, 0, false, 2, 0, 0, true},
 	}
 	c.R.Rule = fmt.Sprintf("the REAL startScanEngine with (a) the real packet engine and (b) the real generic engine, request streams %v / %v (symbols: 0 ok, 1 request error, 2 build error, 3 write/probe error, 4 negative, 5 slow probe), "+
 		"scaled-down buffers (capTo) and slow consumers, one live-mode scenario; the cancellation event is injected at EVERY choice point (and every quiescent point) of EVERY schedule with at most d deviations (d as listed; quick 1, thorough 2); "+
@@ -123,8 +125,9 @@ func verifC12(c *drv.Ctx) {
 		p := pat(s.pattern)
 		st, cfg0, main := vGenericScenario(p, s.workers, 300*time.Millisecond, s.rate, true, s.slow, s.capTo)
 		slowOut := s.slowOut
-		cfg := func(sch *vs.Sched) { vSlowOutput = slowOut; cfg0(sch) }
-		name := fmt.Sprintf("generic pattern=%s workers=%d rate=%d slow=%v cap=%d slow-output=%v", s.pattern, s.workers, s.rate, s.slow, s.capTo, s.slowOut)
+		stuck := s.stuck
+		cfg := func(sch *vs.Sched) { vSlowOutput = slowOut; vStuckGenerator = stuck; cfg0(sch) }
+		name := fmt.Sprintf("generic pattern=%s workers=%d rate=%d slow=%v cap=%d slow-output=%v stuck-generator=%v", s.pattern, s.workers, s.rate, s.slow, s.capTo, s.slowOut, s.stuck)
 		check := func(x *vs.Exec) (string, error) {
 			if out, err := vBasic(x); err != nil {
 				return out, err
